@@ -118,6 +118,8 @@ def run_one(seed, preset=None, tier="quick", want_case=False):
 
     r = run_single(ID, seed, preset, want_case, schema_knobs=schema_knobs, doc_knobs=doc_knobs,
                    faults_fn=faults_fn, extra_check=order_check, doc_post=doc_post, pick_op=pick_op, post_engine=dfs_orders)
+    if r.get("early"):
+        return strip_private(r)
     plan, out = r["_plan"], r["_out"]
     is_mut = plan.op is not None and plan.op.op == "mutation"
     nested = any(len(c[0]) > 1 for c in out.rt.calls)
